@@ -17,6 +17,12 @@ def P(variants, quick_s, thorough_s, rule, probes=None, probes_thorough=None, as
     return d
 
 PROPS = {
+    "C01": P(["asan"], 30, 900,
+             "plans = seeded histories (4..40 ops, pool of 4 objects, str or ustr, direct functions or class-table macros) starting from a random constructor "
+             "(empty, ptr, buff, num, FILE* with seeded chunking, descriptor with short reads/EINTR/EAGAIN/EIO), texts from empty to 16 KB around the 4096-byte chunk; "
+             "every object is compared with an ideal character sequence after every step; distinct = distinct trace hash (includes allocator digest); non-trivial = >= 3 ops",
+             probes=["append_on_empty", "fp_line_crosses_4096", "fd_multi_chunk", "refused_op", "done", "query_not_found", "trim_all_whitespace",
+                     "mutator_on_empty_state", "dup_of_empty_str"]),
     "C19": P(["plain"], 30, 900,
              "plans = fault-script sweep (all scripts over {FULL,SHORT,EINTR}^<=3 on the first reads and {FULL,SHORT,EINTR,EAGAIN}^<=3 on the first writes x 4 payload sizes) "
              "followed by seeded lifecycles of 1 server + 1..3 client tasks with per-call fault scripts and seeded schedules; "
